@@ -51,3 +51,30 @@ pub fn unhex(s: &str) -> Vec<u8> {
     if s == "-" { return vec![]; }
     (0..s.len() / 2).map(|i| u8::from_str_radix(&s[2 * i..2 * i + 2], 16).unwrap()).collect()
 }
+
+/// Runs one reporter call on its own thread with a watchdog: a call that has not returned
+/// after `secs` seconds is reported as hung (the property says it terminates) instead of
+/// stalling the whole check.
+pub enum Outcome {
+    Done,
+    Panicked,
+    Hung,
+}
+pub fn guarded<F: FnOnce() + Send + 'static>(f: F, secs: u64) -> Outcome {
+    let (tx, rx) = std::sync::mpsc::channel();
+    std::thread::spawn(move || {
+        let r = std::panic::catch_unwind(std::panic::AssertUnwindSafe(f));
+        let _ = tx.send(r.is_err());
+    });
+    match rx.recv_timeout(std::time::Duration::from_secs(secs)) {
+        Ok(false) => Outcome::Done,
+        Ok(true) => Outcome::Panicked,
+        Err(_) => Outcome::Hung,
+    }
+}
+/// a hung call cannot be cancelled: record it, flush and end this shard
+pub fn end_after_hang(out: &mut dyn std::io::Write) -> ! {
+    let _ = writeln!(out, "#stat hung-calls 1");
+    let _ = out.flush();
+    std::process::exit(0);
+}
